@@ -131,3 +131,85 @@ func nestedRegShape(r *rand.Rand, w *World) []string {
 		}
 	}
 }
+
+// reusedApp: a caller that builds the application once and calls Run on that one value for every request (hook:
+// jobs with reuse). Every request is also served by a freshly built application; the two must agree - what an
+// earlier request was given (a period, --today, a date layout, a depth limit, presentation switches) does not
+// reach a later one. No environment variables here: the CLI library itself keeps values taken from variables
+// in the flag objects of an application value. shapes draws the command; decorate adds global flags.
+func reusedApp(c *core.Ctx, pool *run.Pool, n int, shapes func(r *rand.Rand, w *World) []string) {
+	layouts := []string{"2006/01/02", "2006/01/02", "02.01.2006", "2006-01-02"}
+	core.ParallelFor(n, c.Procs, func(wk, i int) {
+		srv := pool.Servers[wk]
+		r := c.Rng("reused", i)
+		w := newWorld(r, worldOpts{Exact: i%2 == 0, MinDays: 2, MaxDays: 6, Notes: true, NoBig: true, Layout: layouts[r.Intn(len(layouts))], AltComment: true})
+		srv.Write(w.Files())
+		for k := 0; k < 4; k++ {
+			args := w.base()
+			if w.Layout != "2006/01/02" {
+				args = append(args, "--date-format", w.Layout)
+			}
+			day := func() string { return w.Log[r.Intn(len(w.Log))].Date.Format(w.Layout) }
+			if r.Intn(3) == 0 {
+				args = append(args, "-b", day())
+			}
+			if r.Intn(3) == 0 {
+				args = append(args, "-e", day())
+			}
+			if r.Intn(3) == 0 {
+				args = append(args, "--today", day())
+			}
+			if r.Intn(4) == 0 {
+				args = append(args, "--maxdepth", fmt.Sprint(1+r.Intn(12)))
+			}
+			args = append(args, shapes(r, w)...)
+			fresh := srv.App1(args, nil)
+			reused := srv.AppReused(args)
+			c.Eval(2)
+			c.Count("requests_served_by_one_application_value", 1)
+			if len(fresh.Out) > 0 {
+				c.Nontrivial("reused", joinArgs(args), w.BookText, w.LogText)
+			}
+			if fresh.Panic != "" || reused.Panic != "" {
+				c.Violation(shapeName(args)+"|crash-on-a-reused-application", clip(fresh.Panic+reused.Panic, 300), caseDoc{Files: w.Files(), Args: args})
+				return
+			}
+			if fresh.Out != reused.Out || fresh.Exit != reused.Exit || fresh.Err != reused.Err {
+				c.Violation(shapeName(args)+"|depends-on-earlier-requests", fmt.Sprintf("%s: exit %d, %d bytes from a freshly built application; exit %d, %d bytes (%s) from the application value that served other requests before", joinArgs(args), fresh.Exit, len(fresh.Out), reused.Exit, len(reused.Out), clip(reused.Err, 120)),
+					caseDoc{Files: w.Files(), Args: args, Note: "second run: on the one App value the job server keeps for such requests; it has served other requests (other periods, layouts, limits, switches) before", Expected: resDoc(fresh), Observed: resDoc(reused)})
+			}
+		}
+	})
+}
+
+// shapeName: the command word of an argument list built by World.base plus decorations.
+func shapeName(args []string) string {
+	cmds := map[string]bool{"reg": true, "bal": true, "summary": true, "report": true, "csv": true, "print": true, "stats": true, "lint": true}
+	for k, a := range args {
+		if cmds[a] {
+			if (a == "report" || a == "csv") && k+1 < len(args) {
+				return a + " " + args[k+1]
+			}
+			return a
+		}
+	}
+	return "report"
+}
+
+// nestedBalShape: the balance in its display modes.
+func nestedBalShape(r *rand.Rand, w *World) []string {
+	for {
+		if a := nestedAnyShape(r, w); a[0] == "bal" {
+			return a
+		}
+	}
+}
+
+// nestedLogShape: the commands that show the days of a period.
+func nestedLogShape(r *rand.Rand, w *World) []string {
+	for {
+		if a := nestedAnyShape(r, w); a[0] == "reg" || a[0] == "print" || a[0] == "csv" || a[0] == "bal" || a[0] == "report" {
+			return a
+		}
+	}
+}
